@@ -60,7 +60,7 @@ class Sim:
             default = None
             for oi, o in enumerate(lf['objects']):
                 st = KINDS[o['kind']][1]
-                key = (st, o.get('set_name'))
+                key = (li, st)          # numbered among the objects of the type in the whole logical file, whatever their sets
                 names = set_members.setdefault(key, [])
                 copy = sum(1 for n in names if n == o['name'])
                 names.append(o['name'])
